@@ -53,6 +53,11 @@ func main() {
 	replay := flag.String("replay", "", "replay file: re-evaluate and print that single obligation")
 	list := flag.Bool("list", false, "list properties")
 	manifest := flag.Bool("manifest", false, "print MANIFEST.json generated from the property registry")
+	mchild := flag.Bool("mutant-child", false, "internal: evaluate one source mutant and print a MUTANT line")
+	mfile := flag.String("mutant-file", "", "internal")
+	mstart := flag.Int("mutant-start", 0, "internal")
+	mend := flag.Int("mutant-end", 0, "internal")
+	mrepl := flag.String("mutant-repl", "", "internal")
 	dump := flag.String("dump", "", "debug: print the E1 facts reaching every sink site of the named function")
 	flag.Parse()
 	if *dump != "" {
@@ -103,6 +108,10 @@ func main() {
 		fmt.Fprintf(os.Stderr, "unknown property %q\n", *prop)
 		os.Exit(2)
 	}
+	if *mchild {
+		runMutantChild(ps, *repo, *verif, Mutant{File: *mfile, Start: *mstart, End: *mend, Repl: *mrepl})
+		return
+	}
 	os.Exit(runProp(ps, *repo, *verif, *tier, seed, *replay))
 }
 
@@ -143,6 +152,9 @@ func runProp(ps *PropSpec, repo, verif, tier string, seed int, replay string) (c
 	ps.Run(c)
 	if tier == "thorough" && ps.Thorough != nil {
 		ps.Thorough(c)
+	}
+	if tier == "thorough" {
+		RunMutantMatrix(c, ps, repo, verif, seed)
 	}
 	// controls: every Bad_<tag>_* / Good_<tag>_* function for the rules this property runs
 	ctl := &ctlResult{}
